@@ -77,6 +77,16 @@ let dispatch op =
   | "game" -> let g = rd_graph () in let d = rd_zlist () in let v = rd_nat () in out_res out_bool (play_game fuel g d v)
   | "strat" -> let g = rd_graph () in let d = rd_zlist () in
       out_res (fun (b, l) -> out_bool b; out_natlist l) (test_strategy fuel g d)
+  | "linq" -> let g = rd_graph () in let q = rd_nat () in let d = rd_zlist () in let e = rd_zlist () in
+      out_res out_bool (lin_equiv_q fuel g q d e)
+  | "concok" -> let g = rd_graph () in let q = rd_nat () in let d = rd_zlist () in let e = rd_zlist () in
+      out_res out_bool (conc_ok fuel g q d e)
+  | "certok" -> let g = rd_graph () in let q = rd_nat () in let r = rd_zlist () in
+      let k = rd_int () in let o = rd_n k (fun () -> let a = rd_nat () in let b = rd_nat () in (a, b)) in
+      let pos = rd_natlist () in out_bool (cert_ok g q r o pos)
+  | "burnorient" -> let g = rd_graph () in let q = rd_nat () in let d = rd_zlist () in
+      let b = burn_list g q d in let o = burn_orient g b in
+      out_bool (cert_ok g q d o (burn_pos g b)); out_int (List.length o); List.iter (fun (a, b) -> out_nat a; out_nat b) o
   | _ -> failwith ("unknown op " ^ op)
 
 let () =
